@@ -2,6 +2,7 @@
 from __future__ import annotations
 
 import itertools
+import json
 import random
 import warnings
 
@@ -173,6 +174,78 @@ def tuple_key_cases(run, rng, n):
     run.sample({"tuple_case": {"func": func, "ngroupers": k, "vals": [I.fnum(v) for v in vals], "by": [[I.fnum(x) for x in b] for b in bys]}})
 
 
+def broadcast_grouper_cases(run, rng, n):
+    """2-4 groupers given as label arrays of DIFFERENT n-d shapes that broadcast against each other (e.g. (a,1,1), (1,b,1), (1,1,c), or
+    full-shape next to size-1 axes), different numbers of groups per grouper: result axes and returned labels follow the ORDER OF THE
+    GROUPERS AS GIVEN; values = grouping by the tuple of (broadcast) labels"""
+    import dask
+    import dask.array as da
+    import numpy as np
+
+    import flox
+
+    desc = None
+    for _ in range(n):
+        k = rng.randint(2, 4)
+        nd = rng.randint(2, 3)
+        shape = tuple(rng.randint(2, 4) for _ in range(nd))
+        func = rng.choice(["sum", "count", "max", "nanmean"])
+        vals = np.array([rng.randint(-4, 4) for _ in range(int(np.prod(shape)))], dtype=float).reshape(shape)
+        bys, ngs = [], []
+        for gi in range(k):
+            ng = rng.randint(1, 4)
+            style = rng.choice(["one-axis", "one-axis", "full", "two-axes"])
+            if style == "full" or nd == 1:
+                bshape = shape
+            elif style == "one-axis":
+                ax = rng.randrange(nd)
+                bshape = tuple(shape[i] if i == ax else 1 for i in range(nd))
+            else:
+                drop = rng.randrange(nd)
+                bshape = tuple(1 if i == drop else shape[i] for i in range(nd))
+            by = np.array([rng.randrange(ng) for _ in range(int(np.prod(bshape)))], dtype=float).reshape(bshape)
+            if rng.random() < 0.2:
+                by.reshape(-1)[rng.randrange(by.size)] = np.nan
+            bys.append(by)
+            ngs.append(ng)
+        full = [np.broadcast_to(b, shape) for b in bys]
+        want = np.full(ngs, np.nan)
+        for key in itertools.product(*[range(g) for g in ngs]):
+            mask = np.ones(shape, dtype=bool)
+            for b, kk in zip(full, key):
+                mask &= (b == kk)
+            mem = vals[mask]
+            if len(mem):
+                want[key] = {"sum": np.sum, "count": len, "max": np.max, "nanmean": np.mean}[func](mem)
+        desc = {"func": func, "shape": list(shape), "grouper_shapes": [list(b.shape) for b in bys], "ngroups": ngs,
+                "vals": vals.tolist(), "by": [[I.fnum(x) for x in b.reshape(-1)] for b in bys]}
+        for mode in ("eager", "dask"):
+            arr = vals if mode == "eager" else da.from_array(vals, chunks=tuple(max(1, s // 2) for s in shape))
+            try:
+                with warnings.catch_warnings(), dask.config.set(scheduler="sync"):
+                    warnings.simplefilter("ignore")
+                    res, *groups = flox.groupby_reduce(arr, *bys, func=func, expected_groups=tuple(np.arange(g, dtype=float) for g in ngs), fill_value=np.nan)
+                    res = np.asarray(res.compute() if hasattr(res, "compute") else res, dtype=float)
+            except (ValueError, NotImplementedError):
+                run.extra["refused_cases"] = run.extra.get("refused_cases", 0) + 1
+                continue
+            except Exception as e:  # noqa: BLE001
+                run.violation(dict(desc, property="C07", kind=f"groupers of different (broadcasting) shapes: internal error {type(e).__name__}: {str(e)[:120]}", mode=mode,
+                                   chunks=[list(c) for c in arr.chunks]), tag="bcast")
+                break
+            run.count("bcast|" + mode + "|" + json.dumps(desc, sort_keys=True), len({tuple(b.shape) for b in bys}) > 1)
+            ok = res.shape == tuple(ngs) and np.allclose(np.nan_to_num(res) if func == "count" else res, np.nan_to_num(want) if func == "count" else want, equal_nan=True) \
+                and all(np.array_equal(np.asarray(g, dtype=float), np.arange(ng, dtype=float)) for g, ng in zip(groups, ngs))
+            if not ok:
+                run.violation(dict(desc, property="C07", kind="groupers of different (broadcasting) shapes: result differs from grouping by the tuple of labels "
+                                   "(axes / labels must follow the order of the groupers as given)", mode=mode, got_shape=list(res.shape),
+                                   got=[I.fnum(x) for x in res.reshape(-1)], want=[I.fnum(x) for x in want.reshape(-1)],
+                                   returned_labels=[[I.fnum(x) for x in np.asarray(g, dtype=float)] for g in groups]), tag="bcast")
+                break
+    if desc:
+        run.sample({"broadcast_grouper_case": {k_: v for k_, v in desc.items() if k_ not in ("vals", "by")}})
+
+
 def run(run: C.Run):
     rng = random.Random(run.seed)
     P.front(run, translators=())
@@ -181,6 +254,7 @@ def run(run: C.Run):
     run.cov["exhaustive"] = True
     ravel_cases(run, rng, 4000 if thorough else 800)
     tuple_key_cases(run, rng, 3000 if thorough else 350)
+    broadcast_grouper_cases(run, rng, 2000 if thorough else 300)
     if any(not o[1] for o in run.obligations) and not run.violations:
         run.violation({"property": "C07", "kind": "proof obligation / correspondence no longer checks",
                        "failed": P.failed_obligations(run)}, nofail=True, tag="obligation")
@@ -189,7 +263,8 @@ def run(run: C.Run):
         "every edge +-1/2, outside values, +-inf, NaN; both closed sides; _factorize_single compared with pandas.cut (oracle) and "
         "with the Coq model; ravel: random code tuples of 2-3 groupers incl. -1 vs the Coq mixed-radix model; K3: 1-3 groupers "
         "mixing categorical and IntervalIndex kinds, eager / dask array / dask labels, result shape and every entry (i,j,..) "
-        "compared with the NumPy reduction of the elements carrying that label tuple; non-trivial = >1 grouper")
+        "compared with the NumPy reduction of the elements carrying that label tuple; 2-4 groupers given as n-d label arrays of different, "
+        "mutually broadcasting shapes with different group counts (result axes and labels in the order of the groupers); non-trivial = >1 grouper")
 
 
 def replay(run: C.Run, path):
